@@ -99,6 +99,8 @@ type Case struct {
 	Ops       []Op   `json:"ops"`
 	// Stat != nil: not a history but a run of the statistical engine (stat_test.go) with these parameters
 	Stat *StatParams `json:"stat,omitempty"`
+	// Direct != nil: a run of a direct-oracle engine (twin_test.go: twin | scale) with these parameters
+	Direct *DirectParams `json:"direct,omitempty"`
 	// Pipe != nil: a whole-instance scenario for the product model Silencer x Group (pipe_test.go)
 	Pipe *sysrun.Scenario `json:"pipe,omitempty"`
 }
@@ -1475,6 +1477,8 @@ func TestCheck(t *testing.T) {
 			// handled by the pipeline part below
 		} else if c.Stat != nil {
 			judgeStat(t, run, *c.Stat)
+		} else if c.Direct != nil {
+			directRun(t, run, *c.Direct)
 		} else {
 			record(runCase(t, &c, nil, 0))
 		}
@@ -1498,6 +1502,10 @@ func TestCheck(t *testing.T) {
 		}
 		// statistical engine (real parallelism): Mutes callers racing a Set / Merge of a matching silence, then quiescent probes
 		judgeStat(t, run, statPlan(env))
+		// direct-oracle engines: overlapping evaluations of one alert at every yield point; stores of thousands of silences through one GC
+		for _, p := range directPlan(env) {
+			directRun(t, run, p)
+		}
 	}
 	if err := run.Finish("one real instance (silence.Silences + Silencer + MuteStage + api/v2 GET /alerts over a mem.Alerts provider) under synctest virtual time; histories of Set (create / in-place edit / history rewrite) / Expire / Merge of crafted peer batches (newer, older, duplicated, out-of-order versions of stored ids, peer-created ids, legacy-format and invalid records) / GC / restart from snapshot / alert GC / MuteStage batches / API status, with time steps onto start / end / expiry boundaries -1/0/+1 ns; interrupted Mutes calls (1-2 store operations injected at a yield point between the atomic steps of Silencer.Mutes: after the cache read / Version() read, around each Query, before the cache write; entry up to date or stale, with or without cached ids, injected silence matching or not) followed by quiescent Mutes for every label set; after every op a random subset of 4 label sets (one with a UTF-8 name) is probed with Mutes; plus a judged statistical engine outside synctest (several goroutines calling Mutes for fresh label sets against a store of ~1500 silences while a matching active silence is Set / merged; afterwards one quiescent Mutes per label set must be exact); non-trivial = both verdicts occur and the history has a merge, an expire or an in-place edit"); err != nil {
 		t.Fatal(err)
